@@ -241,6 +241,12 @@ func (b *Builder) resolvePending(ctx context.Context) (diags Diagnostics) {
 		b.mu.Unlock()
 	}()
 
+	// Another caller's build may have failed, or the builder may have been
+	// closed, while this call was waiting for the lock.
+	if b.targetDir == "" {
+		panic("use of failed or closed sourcebundle.Builder")
+	}
+
 	trace := buildTraceFromContext(ctx)
 
 	// We'll just keep iterating until we've depleted our queues.
